@@ -201,10 +201,10 @@ func siblingLists() map[string][]any {
 		"null-only":       {nil},
 		"null-last":       {"1", "2", nil},
 		"null-first":      {nil, "7"},
-		"nonzero-240":     nz(240),            // fits exactly
-		"nonzero-241":     nz(241),            // D12
+		"nonzero-240":     nz(240),                 // fits exactly
+		"nonzero-241":     nz(241),                 // D12
 		"zeros-240+1":     append(zeros(240), "5"), // D12: a non-zero sibling at level 240
-		"zeros-300":       zeros(300),         // decodes; RootFromProof panics and is recovered (88617d1)
+		"zeros-300":       zeros(300),              // decodes; RootFromProof panics and is recovered (88617d1)
 		"zeros-241":       zeros(241),
 		"bad-element":     {"1", "not-a-number", nil},
 		"number-element":  {1, nil},
@@ -898,10 +898,10 @@ func hostileBodies(valid []byte) map[string][]byte {
 		"no-body": {}, "number": []byte(`17`), "true": []byte(`true`), "not-json": []byte(`<html>502</html>`),
 		"truncated": valid[:len(valid)/2], "trailing": append(append([]byte{}, valid...), []byte(` {"x":1}`)...),
 		"huge": huge, "padded-17k": append(append([]byte{}, valid...), []byte(strings.Repeat(" ", 17*1024))...),
-		"nested-null": []byte(`{"didDocument":null,"issuer":null,"mtp":null}`),
-		"wrong-types": []byte(`{"didDocument":{"verificationMethod":{},"authentication":5},"issuer":[],"mtp":"x"}`),
+		"nested-null":   []byte(`{"didDocument":null,"issuer":null,"mtp":null}`),
+		"wrong-types":   []byte(`{"didDocument":{"verificationMethod":{},"authentication":5},"issuer":[],"mtp":"x"}`),
 		"wrong-types-2": []byte(`{"didDocument":{"verificationMethod":[5,null,{"published":"yes"}]},"issuer":{"state":5},"mtp":{"siblings":{}}}`),
-		"deep": []byte(strings.Repeat("[", 20000) + strings.Repeat("]", 20000)),
+		"deep":          []byte(strings.Repeat("[", 20000) + strings.Repeat("]", 20000)),
 	}
 }
 
@@ -1050,7 +1050,7 @@ func (d *drv) programmaticStatusStream() {
 		d.rep.Count("status-go-value:" + o.Class)
 		d.rep.Distinct("stgo:" + v.why)
 		if o.Class == "panic" || o.Class == "hang" {
-			d.fail("ValidateCredentialStatus(resolver value "+v.why+")", o, in)
+			d.fail("ValidateCredentialStatus", o, in)
 		}
 		m := mtpOfProof(p, sf.hrtr, new(big.Int).SetUint64(b.Nonce), big.NewInt(0))
 		m = strings.TrimSuffix(strings.TrimPrefix(m, "(Some "), ")")
